@@ -28,7 +28,7 @@ def registry():
 
 def relevant_forms(prop, reg, tier="quick"):
     forms = {f: v for f, v in reg["forms"].items() if tier == "thorough" or v.get("tier", "quick") == "quick"}
-    if prop in ("C08", "C20", "C15"):
+    if prop in ("C07", "C08", "C20", "C15"):
         return sorted(forms)
     return sorted(f for f, v in forms.items() if v["prop"] == prop)
 
@@ -37,6 +37,8 @@ def expected_ids(prop, form, home):
     ids = []
     if prop == home:
         ids += ["%s/%s/%s" % (prop, form, c) for c in HOME_CLAUSES]
+    if prop == "C07":
+        ids.append("C07/%s/executed_as_encoded_with_its_length" % form)
     if prop == "C08":
         ids.append("C08/%s/ea" % form)
         ids.append("C08/%s/address_registers" % form)
